@@ -99,7 +99,7 @@ def judge(case, rep, S):
         pat = M.pat_from_str(case["p"])
         rng = gen.sub_rng(0, ID, case["p"])
         seq = gen.spell(rng, pat, neut=M.NEUTRALS + "HHH")
-        windows = list(range(1, len(seq) + 4))
+        windows = list(range(1, len(seq) + 4)) + [len(seq) + 10, 2 * len(seq) + 1, 10 * len(seq)]
     else:
         seq = case["s"]
         rng = gen.sub_rng(case["o"], ID)
@@ -109,7 +109,7 @@ def judge(case, rep, S):
             windows = sorted(set([127, 128, 129, 150, 200, 255, 256, 257, N - 1, N, N + 1]))
             windows = [w for w in windows if w <= N + 1]
         elif N <= 40:
-            windows = list(range(1, N + 4))
+            windows = list(range(1, N + 4)) + [N + 7, 2 * N + 1, 5 * N + 3]
         else:
             windows = sorted(set([1, 2, 5, 6, N - 1, N, N + 1, N + 2, N + 3] + [rng.randint(1, N) for _ in range(6)]))
     N = len(seq)
